@@ -3,7 +3,7 @@
    point, and the schedule sweep: real programs run under forced-collection schedules (hook H1, freed
    memory poisoned by H3, post-GC walk H2); TLC validates every collection and that the observable
    output of every run equals the reference run (HeapSummary!TEnd = ScheduleIndependence)."""
-import glob, hashlib, json, os, re, subprocess, sys
+import glob, hashlib, threading, json, os, re, subprocess, sys
 import vlib, heapcommon as hc
 from vlib import Broken
 
@@ -64,9 +64,10 @@ def compose(sc, runs, name):
 def validate(sc, path):
     cfg = sc.file("HeapSummarySweep.cfg")
     if not os.path.exists(cfg):
-        with open(cfg + ".tmp", "w") as f:
+        tmp = "%s.%d.%d.tmp" % (cfg, os.getpid(), threading.get_ident())
+        with open(tmp, "w") as f:
             f.write("SPECIFICATION Spec\nCONSTANTS GrowNum = 1000000\n GrowDen = 1\nPOSTCONDITION Accepted\nCHECK_DEADLOCK FALSE\n")
-        os.replace(cfg + ".tmp", cfg)
+        os.replace(tmp, cfg)
     return vlib.run_tlc("HeapSummary.tla", cfg, sc.path, env={"TRACE": path}, workers=1, timeout=1200, heap="8g")
 
 
